@@ -54,6 +54,25 @@ class SymRandom(random.Random):
         self.draws.append((n, v))
         return v
 
+    # (CrossHair replaces random.Random.randrange/randint/random/uniform/getrandbits by contracts returning an arbitrary
+    # in-range value on EVERY call - measured; the overrides below keep them functions of the stream)
+    def randrange(self, start, stop=None, step=1):
+        if step != 1:
+            raise StubLimit("randrange with a step not modelled")
+        if stop is None:
+            if start <= 0:
+                raise ValueError("empty range for randrange()")
+            return self._randbelow(start)
+        if stop - start <= 0:
+            raise ValueError("empty range for randrange() (%d, %d, %d)" % (start, stop, stop - start))
+        return start + self._randbelow(stop - start)
+
+    def randint(self, a, b):
+        return self.randrange(a, b + 1)
+
+    def uniform(self, a, b):
+        raise StubLimit("uniform() not modelled")
+
     def getrandbits(self, k):
         raise StubLimit("getrandbits not modelled")
 
